@@ -1232,7 +1232,8 @@ DFGRIaddimlut(const char *filename, const void *imlut, int32 xdim, int32 ydim, i
         *Grlastfile = '\0'; /* initialize to a 0-length string */
     }
 
-    if (0 != strcmp(Grlastfile, filename)) { /* if new file, reset dims */
+    /* filename is NULL for DFGRsetlut (set call, nothing is written) */
+    if (filename != NULL && 0 != strcmp(Grlastfile, filename)) { /* if new file, reset dims */
         Grwrite.datadesc[type].xdim = xdim;
         Grwrite.datadesc[type].ydim = ydim;
         Ref.dims[type]              = 0; /* indicate set & not written */
